@@ -65,7 +65,7 @@ def range_loop_general(interp, st, rng, fr):
     except ContinueEx:
         pass                          # `continue`: the iteration ends here
     except BreakEx:
-        raise Undecided("break in a loop over a symbolic range")
+        return                        # `break`: the loop ends at this iteration
     ctx.oblige("loop/variant-decreases", zint(src.consumed) - c0 >= 1)
     after = ctx.int_const(ctx.fresh("skipped"), 0)
     ctx.assume(after <= zint(src.remaining()))
